@@ -31,8 +31,16 @@ type c06Case struct {
 	K     int     `json:"k,omitempty"`
 	Draws int     `json:"draws,omitempty"`
 	Ks    []mon.F `json:"ks"` // query points of PMF and CDF (may be empty: moments only)
+	// Ks are evaluated in the order given (the order is part of the case: an
+	// implementation may keep state between calls). The last Requery entries
+	// of Ks are evaluated on a distribution value constructed anew (equal
+	// parameters) after all the earlier ones.
+	Requery int    `json:"requery,omitempty"`
+	Order   string `json:"order,omitempty"` // how Ks was ordered: asc, desc, random, history
 	// PointsOnly: judge only PMF/CDF at Ks (set in the replay case of a
-	// PMF/CDF violation, so that the replay re-judges exactly that event)
+	// PMF/CDF violation: Ks is then the sequence of queries up to and
+	// including the refuted one, so that the replay re-creates the call
+	// history of that event)
 	PointsOnly bool `json:"points_only,omitempty"`
 }
 
@@ -62,14 +70,49 @@ func init() {
 	}})
 }
 
-// c06MomentTol: the statement gives no number for the moments. The inputs
-// are exact (integers, one float64), so any reasonable evaluation order of
-// the closed forms is within a few ulp; 1e-10 absolute (the statement's own
-// number for probabilities) plus 1e-12 relative also admits an implementation
-// that goes through K/N or 1-K/N or sums k*PMF(k), and is still three orders
-// below the smallest effect of a wrong denominator (relative 1/N >= 1e-3 on a
-// variance >= 1e-3 in the domain monitored).
-func c06MomentTol(want float64) float64 { return 1e-10 + 1e-12*math.Abs(want) }
+// c06MomentTol: the statement gives no number for the moments ("equal the
+// first two moments of the PMF"). The parameters are exact (integers, one
+// float64) and the moments are short closed forms without cancellation, so a
+// correct evaluation is within a few ulp *of the moment itself*, however
+// small it is: the tolerance is relative, 1e-12 (four orders above the
+// rounding of any evaluation order of N*P*(1-P), (Draws*K)/N, ...), plus two
+// quanta of the subnormal range (P=5e-324 is in the domain). An absolute
+// allowance would make the check blind exactly where the quantifier sends it
+// (P within 1e-12 of 0 or 1: variance ~1e-12*N). A moment that is exactly 0
+// (P=0, P=1, N=0; K or Draws in {0,N}) must be returned as 0: every factor
+// that makes it vanish is computed exactly (1-1, N-N, 0*x).
+//
+// Hypergeometric only: K/N is not an input, so an evaluation that goes through
+// the fractions p=K/N, 1-p, Draws/N (correct, and natural) carries an absolute
+// rounding error of an ulp of 1 in 1-p, i.e. up to Draws*2^-53 in the moment;
+// 8 such ulps are admitted (relative effect < 1e-9 for N<=1000).
+func c06MomentTol(kind string, want float64, draws int) float64 {
+	if want == 0 {
+		return 0
+	}
+	tol := 1e-12*math.Abs(want) + 2*math.SmallestNonzeroFloat64
+	if kind == "hyperg" {
+		tol += 8 * 0x1p-53 * float64(draws)
+	}
+	return tol
+}
+
+// c06Within records |got-want| against tol (tol 0: got must equal want; NaN
+// is never within).
+func c06Within(w *mon.W, oracle string, got, want, tol float64) bool {
+	return w.Err(oracle, math.Abs(got-want), tol)
+}
+
+// c06SigmaOK: Sigma is the square root of a variance within the variance
+// tolerance, to 1e-12 relative (exactly 0 when the variance is 0).
+func c06SigmaOK(sigma, vr, tolV float64) bool {
+	if !(sigma >= 0) {
+		return false
+	}
+	lo := math.Sqrt(math.Max(0, vr-tolV)) * (1 - 1e-12)
+	hi := math.Sqrt(vr+tolV) * (1 + 1e-12)
+	return sigma >= lo && sigma <= hi
+}
 
 func c06Table(c c06Case) (*ref.DiscTable, error) {
 	if c.Kind == "binom" {
@@ -108,16 +151,37 @@ func c06Judge(w *mon.W, c c06Case) {
 	var d c06Dist
 	var bd stats.BinomialDist
 	op := "Hyperg."
+	// construct builds the distribution value from the parameters, anew
+	construct := func() {
+		if binom {
+			bd = stats.BinomialDist{N: c.N, P: p}
+			d = bd
+		} else {
+			d = stats.HypergeometicDist{N: c.N, K: c.K, Draws: c.Draws}
+		}
+	}
+	construct()
 	if binom {
-		bd = stats.BinomialDist{N: c.N, P: p}
-		d = bd
 		op = "Binomial."
-	} else {
-		d = stats.HypergeometicDist{N: c.N, K: c.K, Draws: c.Draws}
 	}
 	lo, hi := tab.Lo, tab.Hi
-	head := func() c06Case { h := c; h.Ks = nil; return h }
-	at := func(k float64) c06Case { h := c; h.Ks = []mon.F{mon.F(k)}; h.PointsOnly = true; return h }
+	head := func() c06Case { h := c; h.Ks = nil; h.Requery = 0; return h }
+	requeryFrom := len(c.Ks) - c.Requery
+	if c.Requery <= 0 || requeryFrom < 0 {
+		requeryFrom = len(c.Ks)
+	}
+	// upTo(i): the replay case of a refuted query i — the whole call history
+	// of this case up to and including it
+	upTo := func(i int) c06Case {
+		h := c
+		h.Ks = append([]mon.F(nil), c.Ks[:i+1]...)
+		h.PointsOnly = true
+		h.Requery = 0
+		if i >= requeryFrom {
+			h.Requery = i + 1 - requeryFrom
+		}
+		return h
+	}
 
 	// ---- classes of the distribution (inputs and reference side only)
 	if binom {
@@ -131,10 +195,23 @@ func c06Judge(w *mon.W, c c06Case) {
 		w.HitIf(c.N > c06ExactMax, "binom-N>60")
 		w.HitIf(c.N == 1000, "binom-N=1000")
 		w.HitIf(c.N >= 2 && p > 0 && p < 1, "binom-proper")
+		w.HitIf(tab.Var == 0, "binom-variance=0")
+		w.HitIf(tab.Var > 0 && tab.Var < 1e-10, "binom-variance-in-(0,1e-10)")
+		w.HitIf(p < 1 && p >= 1-1e-9 && c.N >= 1, "binom-P-within-1e-9-of-1")
 		if c.N <= 20 {
 			w.Note("binom-N<=20")
 		}
 	} else {
+		if c.N > 80 {
+			small := func(x int) bool { return x <= 6 }
+			near := func(x int) bool { return x >= c.N-6 }
+			w.HitIf(small(c.Draws) && near(c.K) && lo > 0, "hg-bigN-small-Draws-K-near-N-lo>0")
+			w.HitIf(small(c.K) && near(c.Draws) && lo > 0, "hg-bigN-small-K-Draws-near-N-lo>0")
+			w.HitIf(small(c.K) && small(c.Draws) && hi >= 1, "hg-bigN-K-and-Draws-small")
+			w.HitIf(near(c.K) && near(c.Draws) && hi > lo, "hg-bigN-K-and-Draws-near-N")
+			w.HitIf(100*c.Draws <= c.N && c.Draws >= 1 && hi >= 1, "hg-bigN-Draws<=N/100")
+			w.HitIf(100*c.K <= c.N && c.K >= 1 && hi >= 1, "hg-bigN-K<=N/100")
+		}
 		w.HitIf(2*c.Draws < c.N, "hg-Draws<N/2")
 		w.HitIf(2*c.Draws > c.N, "hg-Draws>N/2")
 		w.HitIf(2*c.Draws == c.N, "hg-Draws=N/2")
@@ -147,8 +224,28 @@ func c06Judge(w *mon.W, c c06Case) {
 		w.HitIf(c.N > 80, "hg-N>80")
 	}
 
+	switch c.Order {
+	case "asc", "desc", "random", "history":
+		w.HitIf(len(c.Ks) > 2, "order-"+c.Order)
+	}
+
 	var mean, vr float64
 	if !c.PointsOnly {
+		// the moments of the reference PMF against the closed forms in
+		// exact arithmetic: a disagreement is a defect of the reference
+		var cm, cv float64
+		if binom {
+			cm, cv = ref.BinomMomentsClosed(c.N, p)
+		} else {
+			cm, cv = ref.HypergMomentsClosed(c.N, c.K, c.Draws)
+		}
+		if math.Abs(cm-tab.Mean) > 1e-14*math.Abs(cm)+math.SmallestNonzeroFloat64 || math.Abs(cv-tab.Var) > 1e-14*math.Abs(cv)+math.SmallestNonzeroFloat64 {
+			w.R.Inconclusive(fmt.Sprintf("C06 reference moments of %v: from the PMF %.17g, %.17g; closed form %.17g, %.17g", c, tab.Mean, tab.Var, cm, cv))
+			return
+		}
+		tolM := c06MomentTol(c.Kind, tab.Mean, c.Draws)
+		tolV := c06MomentTol(c.Kind, tab.Var, c.Draws)
+
 		// ---- Bounds, Step
 		var bl, bh, step float64
 		w.Eval(op + "Bounds")
@@ -180,13 +277,13 @@ func c06Judge(w *mon.W, c c06Case) {
 		w.Eval(op + "Mean")
 		if pn, v := mon.Call(func() { mean = d.Mean() }); pn {
 			w.Violate("panic", fmt.Sprintf("%v.Mean() panicked: %v", c, v), head())
-		} else if !w.Err(c.Kind+"-mean", math.Abs(mean-tab.Mean), c06MomentTol(tab.Mean)) {
+		} else if !c06Within(w, c.Kind+"-mean", mean, tab.Mean, tolM) {
 			w.Violate("Mean", fmt.Sprintf("%v.Mean()=%.17g, first moment of the exact PMF is %.17g", c, mean, tab.Mean), head())
 		}
 		w.Eval(op + "Variance")
 		if pn, v := mon.Call(func() { vr = d.Variance() }); pn {
 			w.Violate("panic", fmt.Sprintf("%v.Variance() panicked: %v", c, v), head())
-		} else if !w.Err(c.Kind+"-variance", math.Abs(vr-tab.Var), c06MomentTol(tab.Var)) {
+		} else if !c06Within(w, c.Kind+"-variance", vr, tab.Var, tolV) {
 			w.Violate("Variance", fmt.Sprintf("%v.Variance()=%.17g, central second moment of the exact PMF is %.17g", c, vr, tab.Var), head())
 		}
 		if binom {
@@ -196,12 +293,13 @@ func c06Judge(w *mon.W, c c06Case) {
 				w.Violate("panic", fmt.Sprintf("%v.NormalApprox() panicked: %v", c, v), head())
 			} else {
 				sd := math.Sqrt(tab.Var)
-				muOK := w.Err("normalapprox-mu", math.Abs(na.Mu-tab.Mean), c06MomentTol(tab.Mean))
-				// sigma: within tolerance as a standard deviation, or its
-				// square within the variance tolerance (sqrt magnifies an
-				// admissible variance error when the variance is tiny)
-				sgOK := na.Sigma >= 0 && (math.Abs(na.Sigma-sd) <= c06MomentTol(sd) || math.Abs(na.Sigma*na.Sigma-tab.Var) <= c06MomentTol(tab.Var))
-				w.Err("normalapprox-sigma", math.Abs(na.Sigma-sd), math.Max(c06MomentTol(sd), math.Sqrt(c06MomentTol(tab.Var))))
+				muOK := c06Within(w, "normalapprox-mu", na.Mu, tab.Mean, tolM)
+				// sigma: the square root of a variance within the variance
+				// tolerance (exactly 0 when the variance is 0)
+				sgOK := c06SigmaOK(na.Sigma, tab.Var, tolV)
+				if sd > 0 {
+					w.Err("normalapprox-sigma", math.Abs(na.Sigma-sd), 1e-12*sd+math.Sqrt(tab.Var+tolV)-sd)
+				}
 				if !muOK || !sgOK {
 					w.Violate("NormalApprox", fmt.Sprintf("%v.NormalApprox()={Mu:%.17g,Sigma:%.17g}, want N(mean=%.17g, sd=%.17g)", c, na.Mu, na.Sigma, tab.Mean, sd), head())
 				}
@@ -213,9 +311,20 @@ func c06Judge(w *mon.W, c c06Case) {
 	// ---- PMF and CDF at every query point
 	hs := mon.NewHasher().S(c.Kind).I(c.N).F(p).I(c.K).I(c.Draws).I(len(c.Ks))
 	var smp map[string]any
-	for _, kf := range c.Ks {
+	type first struct{ pm, cd float64 }
+	var seen map[uint64]first
+	if requeryFrom < len(c.Ks) {
+		seen = make(map[uint64]first, len(c.Ks))
+	}
+	for idx, kf := range c.Ks {
 		k := float64(kf)
 		hs = hs.F(k)
+		if idx == requeryFrom {
+			// from here on: a distribution value constructed anew
+			construct()
+			hs = hs.I(-1)
+			w.Hit("requery-on-new-equal-value")
+		}
 		fl := math.Floor(k)
 		if math.IsNaN(fl) {
 			continue // not a point of the monitored domain
@@ -259,30 +368,46 @@ func c06Judge(w *mon.W, c c06Case) {
 		var pm float64
 		w.Eval(op + "PMF")
 		if pn, v := mon.Call(func() { pm = d.PMF(k) }); pn {
-			w.Violate("panic-PMF", fmt.Sprintf("%v.PMF(%v) panicked: %v", c, k, v), at(k))
+			w.Violate("panic-PMF", fmt.Sprintf("%v.PMF(%v) panicked: %v", c, k, v), upTo(idx))
 		} else if !inside {
 			if pm != 0 {
-				w.Violate("PMF-outside-support", fmt.Sprintf("%v.PMF(%v)=%v, floor(k)=%d is outside the support %d..%d: want exactly 0", c, k, pm, j, lo, hi), at(k))
+				w.Violate("PMF-outside-support", fmt.Sprintf("%v.PMF(%v)=%v, floor(k)=%d is outside the support %d..%d: want exactly 0", c, k, pm, j, lo, hi), upTo(idx))
 			}
 		} else if want := tab.P(j); !w.Err(c.Kind+"-PMF", math.Abs(pm-want), c06Tol) {
-			w.Violate("PMF", fmt.Sprintf("%v.PMF(%v)=%.15g, exact probability of %d is %.15g (diff %.3g)", c, k, pm, j, want, pm-want), at(k))
+			w.Violate("PMF", fmt.Sprintf("%v.PMF(%v)=%.15g, exact probability of %d is %.15g (diff %.3g)", c, k, pm, j, want, pm-want), upTo(idx))
 		}
 
 		// CDF
 		var cd float64
 		w.Eval(op + "CDF")
 		if pn, v := mon.Call(func() { cd = d.CDF(k) }); pn {
-			w.Violate("panic-CDF", fmt.Sprintf("%v.CDF(%v) panicked: %v", c, k, v), at(k))
+			w.Violate("panic-CDF", fmt.Sprintf("%v.CDF(%v) panicked: %v", c, k, v), upTo(idx))
 		} else if below {
 			if cd != 0 {
-				w.Violate("CDF-below-support", fmt.Sprintf("%v.CDF(%v)=%v, floor(k)=%d is below the support %d..%d: want exactly 0", c, k, cd, j, lo, hi), at(k))
+				w.Violate("CDF-below-support", fmt.Sprintf("%v.CDF(%v)=%v, floor(k)=%d is below the support %d..%d: want exactly 0", c, k, cd, j, lo, hi), upTo(idx))
 			}
 		} else if j >= hi {
 			if cd != 1 {
-				w.Violate("CDF-from-top", fmt.Sprintf("%v.CDF(%v)=%v, floor(k)=%d is at or above the top of the support %d..%d: want exactly 1", c, k, cd, j, lo, hi), at(k))
+				w.Violate("CDF-from-top", fmt.Sprintf("%v.CDF(%v)=%v, floor(k)=%d is at or above the top of the support %d..%d: want exactly 1", c, k, cd, j, lo, hi), upTo(idx))
 			}
 		} else if want := tab.C(j); !w.Err(c.Kind+"-CDF", math.Abs(cd-want), c06Tol) {
-			w.Violate("CDF", fmt.Sprintf("%v.CDF(%v)=%.15g, exact sum of the PMF over %d..%d is %.15g (diff %.3g)", c, k, cd, lo, j, want, cd-want), at(k))
+			w.Violate("CDF", fmt.Sprintf("%v.CDF(%v)=%.15g, exact sum of the PMF over %d..%d is %.15g (diff %.3g)", c, k, cd, lo, j, want, cd-want), upTo(idx))
+		}
+		if seen != nil {
+			// the answer to a repeated query: judged above against the exact
+			// law like any other (the statement's tolerance leaves the last
+			// bits free); how far it is from the first answer is recorded
+			kb := math.Float64bits(k)
+			if f, ok := seen[kb]; ok {
+				w.HitIf(inside, "requery-inside-support")
+				w.Err("requery-drift-PMF", math.Abs(pm-f.pm), 2*c06Tol)
+				w.Err("requery-drift-CDF", math.Abs(cd-f.cd), 2*c06Tol)
+				if math.Float64bits(pm) != math.Float64bits(f.pm) || math.Float64bits(cd) != math.Float64bits(f.cd) {
+					w.Note("observed-not-judged:repeated-query-not-bit-identical")
+				}
+			} else {
+				seen[kb] = first{pm, cd}
+			}
 		}
 		if smp == nil && inside && j == tab.Mode && k != fl {
 			smp = map[string]any{"k": mon.F(k), "PMF": mon.F(pm), "PMF_ref": mon.F(tab.P(j)), "CDF": mon.F(cd), "CDF_ref": mon.F(tab.C(j))}
@@ -323,20 +448,79 @@ func c06Grid(lo, hi int, rng *mon.Rand, nfrac int) []mon.F {
 	return ks
 }
 
-func c06Binom(w *mon.W, n int, p float64, nfrac int) {
-	c06Judge(w, c06Case{Kind: "binom", N: n, P: mon.F(p), Ks: c06Grid(0, n, w.Rng, nfrac)})
+// c06Sequence turns the points of a grid into the query sequence of a case:
+// the order of evaluation (as generated = ascending sweep first; reversed;
+// shuffled), followed by a few points asked again on a distribution value
+// constructed anew. An implementation that keeps state between calls (a
+// memo table, a cached row) sees call histories other than "ascending,
+// every point once".
+func c06Sequence(ks []mon.F, rng *mon.Rand) (seq []mon.F, order string, requery int) {
+	switch rng.Intn(4) {
+	case 0:
+		order = "asc"
+	case 1:
+		order = "desc"
+		for i, j := 0, len(ks)-1; i < j; i, j = i+1, j-1 {
+			ks[i], ks[j] = ks[j], ks[i]
+		}
+	default:
+		order = "random"
+		for i := len(ks) - 1; i > 0; i-- {
+			j := rng.Intn(i + 1)
+			ks[i], ks[j] = ks[j], ks[i]
+		}
+	}
+	n := len(ks)
+	requery = 6
+	for i := 0; i < requery; i++ {
+		ks = append(ks, ks[rng.Intn(n)])
+	}
+	return ks, order, requery
 }
 
-func c06Hyperg(w *mon.W, n, k, draws, nfrac int) {
-	lo := draws + k - n
+// c06History: first a sparse subset of the grid in descending or random
+// order on one distribution value, then the whole grid in ascending order on
+// a value constructed anew (equal parameters).
+func c06History(ks []mon.F, rng *mon.Rand) (seq []mon.F, order string, requery int) {
+	var pre []mon.F
+	stride := rng.Range(2, 5)
+	for i := rng.Intn(stride); i < len(ks); i += stride {
+		pre = append(pre, ks[i])
+	}
+	if rng.Bool() {
+		for i, j := 0, len(pre)-1; i < j; i, j = i+1, j-1 {
+			pre[i], pre[j] = pre[j], pre[i]
+		}
+	} else {
+		for i := len(pre) - 1; i > 0; i-- {
+			j := rng.Intn(i + 1)
+			pre[i], pre[j] = pre[j], pre[i]
+		}
+	}
+	return append(pre, ks...), "history", len(ks)
+}
+
+func c06HgBounds(n, k, draws int) (lo, hi int) {
+	lo = draws + k - n
 	if lo < 0 {
 		lo = 0
 	}
-	hi := draws
+	hi = draws
 	if k < hi {
 		hi = k
 	}
-	c06Judge(w, c06Case{Kind: "hyperg", N: n, K: k, Draws: draws, Ks: c06Grid(lo, hi, w.Rng, nfrac)})
+	return
+}
+
+func c06Binom(w *mon.W, n int, p float64, nfrac int) {
+	ks, order, rq := c06Sequence(c06Grid(0, n, w.Rng, nfrac), w.Rng)
+	c06Judge(w, c06Case{Kind: "binom", N: n, P: mon.F(p), Ks: ks, Order: order, Requery: rq})
+}
+
+func c06Hyperg(w *mon.W, n, k, draws, nfrac int) {
+	lo, hi := c06HgBounds(n, k, draws)
+	ks, order, rq := c06Sequence(c06Grid(lo, hi, w.Rng, nfrac), w.Rng)
+	c06Judge(w, c06Case{Kind: "hyperg", N: n, K: k, Draws: draws, Ks: ks, Order: order, Requery: rq})
 }
 
 // c06GridPs: the 101 values j/100 and the hostile probabilities at and next
@@ -354,16 +538,21 @@ func c06GridPs() []float64 {
 var c06SpecialPs = []float64{0, 1, 1e-12, 1 - 1e-12, math.SmallestNonzeroFloat64, 1 - 0x1p-53, 0x1p-1022, 0.5, 1e-5, 1 - 1e-5}
 
 func c06Run(r *mon.Run) {
-	r.Rule("exhaustive: every HypergeometicDist{N,K,Draws} with 2<=N<=40 (thorough 80), 0<=K,Draws<=N, and every BinomialDist with N<=60 and P in {j/100, 1e-12, 1-1e-12, 1e-13, 1-1e-13, 3e-16, nextafter(1,0), 1-2^-52, 5e-324, 2^-1022, 1e-300, 1e-20}; random: binomial N<=1000 (P uniform, log-uniform near 0 and near 1, j/N, special values) and hypergeometric N<=1000 (uniform and extreme K/Draws shapes). Per distribution: Bounds, Step, Mean, Variance, NormalApprox and PMF+CDF at every integer and half-integer from 2 below to 2 above the support, at -0.5, -1e-300, -0, one ulp either side of integers, +-1e6 beyond, +-2^40, and random fractions. A case (one distribution with its points) is non-trivial when it hits a class; distinct by hash of (kind, parameters, points).")
+	r.Rule("exhaustive: every HypergeometicDist{N,K,Draws} with 2<=N<=40 (thorough 80), 0<=K,Draws<=N, and every BinomialDist with N<=60 and P in {j/100, 1e-12, 1-1e-12, 1e-13, 1-1e-13, 3e-16, nextafter(1,0), 1-2^-52, 5e-324, 2^-1022, 1e-300, 1e-20}; random: binomial N<=1000 (P uniform, log-uniform near 0 and near 1, j/N, special values) and hypergeometric N<=1000 (uniform and extreme K/Draws shapes; K and Draws each within 6 of 0 or of N in all 196 combinations at N in {1000,999,600,101,100} and random N; K, Draws log-uniform from 0 or from N). Per distribution: Bounds, Step, Mean, Variance, NormalApprox and PMF+CDF at every integer and half-integer from 2 below to 2 above the support, at -0.5, -1e-300, -0, one ulp either side of integers, +-1e6 beyond, +-2^40, and random fractions. The points of a case are queried in ascending, descending or random order (chosen per case), then 6 of them again on a distribution value constructed anew; history cases query a sparse out-of-order subset first and then the whole grid in ascending order on a new equal value; every answer, repeated or not, is judged against the exact law. A case (one distribution with its query sequence) is non-trivial when it hits a class; distinct by hash of (kind, parameters, sequence).")
 	r.Assume("reference: exact big.Int probabilities (all hypergeometric; binomial N<=60 with P the exact dyadic value of the float64), 384-bit big.Float for binomial N>60 (relative error < 2^-370); moments computed from the reference PMF; all cross-checked at start-up against subset/outcome enumeration, closed-form moments, gonum's incomplete beta and textbook constants",
-		"tolerances: 1e-10 absolute for PMF and CDF inside the support (the statement's number), exact 0/1 outside; moments 1e-10+1e-12*|value|; for P in {0,1} Bounds may be 0..N or the single mass point",
+		"tolerances: 1e-10 absolute for PMF and CDF inside the support (the statement's number), exact 0/1 outside; moments relative: 1e-12*|value| + 2 subnormal quanta (hypergeometric: + 8*2^-53*Draws for evaluations through K/N), exactly 0 when the moment is 0; NormalApprox.Sigma = sqrt of a variance within that tolerance, to 1e-12 relative; for P in {0,1} Bounds may be 0..N or the single mass point",
+		"a repeated query need not be bit-identical to the first (the statement's 1e-10 leaves the last bits free): both are judged against the exact law; the drift and the number of non-identical repeats are recorded only",
 		"NaN k is not monitored; huge finite and infinite k are judged as points below/above the support")
 	r.Gate("hg-k-below-mode", "hg-k-above-mode", "hg-k-at-mode", "hg-Draws<N/2", "hg-Draws>N/2", "hg-Draws=N/2", "hg-lower-bound>0",
 		"hg-Draws=N", "hg-Draws=0", "hg-K-in-{0,N}", "hg-one-point-support", "hg-support>=3-points", "hg-N>80",
 		"binom-k=N-1", "binom-P=0", "binom-P=1", "binom-P-within-1e-12-of-0", "binom-P-within-1e-12-of-1",
 		"binom-threshold-size", "hyperg-threshold-size", "binom-N=0", "binom-N=1", "binom-N-21..60", "binom-N>60", "binom-N=1000", "binom-proper", "binom-k-below-mode", "binom-k-above-mode",
 		"k-half-integer", "k-other-fraction", "k-in-(-1,0)", "k-negative-fraction", "k-just-below-integer",
-		"k-below-support", "k-above-support", "k-at-top", "k-at-bottom", "k-far-out", "k-beyond-int64")
+		"k-below-support", "k-above-support", "k-at-top", "k-at-bottom", "k-far-out", "k-beyond-int64",
+		"binom-variance=0", "binom-variance-in-(0,1e-10)", "binom-P-within-1e-9-of-1",
+		"hg-bigN-corner-shape", "hg-bigN-loguniform-shape", "hg-bigN-small-Draws-K-near-N-lo>0", "hg-bigN-small-K-Draws-near-N-lo>0",
+		"hg-bigN-K-and-Draws-small", "hg-bigN-K-and-Draws-near-N", "hg-bigN-Draws<=N/100", "hg-bigN-K<=N/100",
+		"order-asc", "order-desc", "order-random", "order-history", "requery-on-new-equal-value", "requery-inside-support")
 	if err := ref.C06SelfTest(); err != nil {
 		r.Inconclusive("reference self-test failed: " + err.Error())
 		return
@@ -522,6 +711,87 @@ func c06Run(r *mon.Run) {
 			k, d = n-rng.Range(0, 30), n-rng.Range(0, 30)
 		}
 		c06Hyperg(w, n, k, d, 16)
+	})
+
+	// ---- hypergeometric corner shapes at large N: K and Draws each within 6
+	// of 0 or of N (all 14x14 combinations), where the support is short, may
+	// start above 0, and sample or marked set are a tiny or a huge fraction
+	// of the population
+	cornerNs := []int{1000, 999, 600, 101, 100}
+	type cs struct{ n, a, b int }
+	var corners []cs
+	for _, n := range cornerNs {
+		for a := 0; a < 14; a++ {
+			for b := 0; b < 14; b++ {
+				corners = append(corners, cs{n, a, b})
+			}
+		}
+	}
+	for i := 0; i < r.Pick(196, 1960); i++ {
+		corners = append(corners, cs{-1, i / 14 % 14, i % 14}) // N random
+	}
+	r.Parallel("hyperg-corners", len(corners), func(w *mon.W, i int) {
+		t := corners[i]
+		n := t.n
+		if n < 0 {
+			n = w.Rng.Range(81, 1000)
+		}
+		end := func(a int) int {
+			if a < 7 {
+				return a
+			}
+			return n - (a - 7)
+		}
+		w.Hit("hg-bigN-corner-shape")
+		c06Hyperg(w, n, end(t.a), end(t.b), 4)
+	})
+	// ... and K, Draws log-uniform from 0 or from N
+	r.Parallel("hyperg-loguniform", r.Pick(240, 2400), func(w *mon.W, i int) {
+		rng := w.Rng
+		n := 1000
+		if i%3 == 1 {
+			n = rng.Range(200, 1000)
+		}
+		lg := func() int { return int(rng.LogUniform(1, float64(n)+1)) }
+		k, d := lg(), lg()
+		if i/3%2 == 1 {
+			k = n - k
+		}
+		if i/6%2 == 1 {
+			d = n - d
+		}
+		w.Hit("hg-bigN-loguniform-shape")
+		c06Hyperg(w, n, k, d, 4)
+	})
+
+	// ---- call histories: a value-equal distribution queried before, sparsely
+	// and out of order
+	r.Parallel("hyperg-history", r.Pick(400, 4000), func(w *mon.W, i int) {
+		rng := w.Rng
+		n := rng.Range(4, 120)
+		if i%4 == 0 {
+			n = rng.Range(121, 1000)
+		}
+		k, d := rng.Range(0, n), rng.Range(0, n)
+		if i%3 == 0 {
+			k, d = n/2+rng.Range(-n/4, n/4), n/2+rng.Range(-n/4, n/4)
+		}
+		lo, hi := c06HgBounds(n, k, d)
+		ks, order, rq := c06History(c06Grid(lo, hi, rng, 4), rng)
+		c06Judge(w, c06Case{Kind: "hyperg", N: n, K: k, Draws: d, Ks: ks, Order: order, Requery: rq})
+	})
+	r.Parallel("binom-history", r.Pick(300, 3000), func(w *mon.W, i int) {
+		rng := w.Rng
+		n := rng.Range(1, 120)
+		if i%4 == 0 {
+			n = rng.Range(121, 1000)
+		}
+		p := rng.Float64()
+		if i%5 == 0 {
+			p = c06SpecialPs[rng.Intn(len(c06SpecialPs))]
+		}
+		ks, order, rq := c06History(c06Grid(0, n, rng, 4), rng)
+		c06Judge(w, c06Case{Kind: "binom", N: n, P: mon.F(p), Ks: ks, Order: order, Requery: rq})
 	})
 }
 
